@@ -39,8 +39,13 @@ pub enum Stuck {
     Uninit,
     /// the source itself is outside HLSL/C (accepted by the type checker all the same): `switch` on a non-integer
     InvalidSource,
+    /// the emitted tree is not valid Metal in a way that has a name (a described class of defects)
+    Class(&'static str),
     Other,
 }
+
+/// Metal has no `%` / `%=` for floating-point operands (the exporter writes `metal::fmod`; fixes 92d66eb + 35faaaa for `%=`)
+pub const C_FLOAT_REM: &str = "metal-remainder-operator-on-floats";
 
 thread_local! {
     static WHY: std::cell::RefCell<Option<(Stuck, String)>> = const { std::cell::RefCell::new(None) };
@@ -288,9 +293,15 @@ impl<'a> MslEval<'a> {
                     }
                     OpSem::Bin(m) => {
                         let t = common(ta, tb)?;
+                        if m == MBin::Mod && t == MT::Float {
+                            return stuck(Stuck::Class(C_FLOAT_REM), format!("operator % on float operands in {}", e.show()));
+                        }
                         Some(if m.is_cmp() { MT::Bool } else { t })
                     }
                     OpSem::Land | OpSem::Lor => Some(MT::Bool),
+                    OpSem::Compound(MBin::Mod) if common(ta, tb) == Some(MT::Float) => {
+                        stuck(Stuck::Class(C_FLOAT_REM), format!("operator %= on float operands in {}", e.show()))
+                    }
                     OpSem::Assign | OpSem::Compound(_) => Some(ta),
                     OpSem::Comma => Some(tb),
                     _ => None,
@@ -345,6 +356,9 @@ impl<'a> MslEval<'a> {
 
     /// arithmetic / bitwise / relational operator on operands converted to the common type `t`
     fn arith(&self, t: MT, m: MBin, p: V, q: V) -> Option<V> {
+        if m == MBin::Mod && t == MT::Float {
+            return stuck(Stuck::Class(C_FLOAT_REM), "operator % / %= on float operands".into());
+        }
         match (t, p, q) {
             (MT::Long, V::L(a), V::L(b)) => long_bin(m, a, b),
             (MT::LitInt, _, _) => binop(m, p, q),
